@@ -7,7 +7,8 @@
 set -u
 ID=$1; V=$2; shift 2; EXTRA="$@"
 # round 2: SEED_ROUND=2 reads /tmp/wt2-<Cxx>/SEEDED/<a|b> and stores it as seeded/<Cxx>-<c|d>
-if [ "${SEED_ROUND:-1}" = 2 ]; then WT=/tmp/wt2-$ID; DV=$(echo $V | tr ab cd); else WT=/tmp/wt-$ID; DV=$V; fi
+# round 3: /tmp/wt3-<Cxx>, stored as <Cxx>-<e|f>
+if [ "${SEED_ROUND:-1}" = 2 ]; then WT=/tmp/wt2-$ID; DV=$(echo $V | tr ab cd); elif [ "${SEED_ROUND:-1}" = 3 ]; then WT=/tmp/wt3-$ID; DV=$(echo $V | tr ab ef); else WT=/tmp/wt-$ID; DV=$V; fi
 SRC=$WT/SEEDED/$V; DST=/verif/seeded/$ID-$DV
 mkdir -p $DST
 if [ -d $SRC ]; then cp $SRC/patch.diff $DST/patch.diff; cp $SRC/notes.md $DST/notes.md 2>/dev/null; DEMO=$(ls $SRC | grep -i '^demo' | head -1); cp $SRC/$DEMO $DST/$DEMO; else DEMO=$(ls $DST | grep -i '^demo\.' | head -1); fi
@@ -18,7 +19,10 @@ run_demo() { # returns 0 if demo passes
   case "$DEMO" in
     *.rs) cp $SRC/$DEMO sudachi/tests/seeded_demo_x.rs; cargo test -p sudachi --offline --test seeded_demo_x > $DST/demo-$1.log 2>&1; rc=$?; rm -f sudachi/tests/seeded_demo_x.rs; return $rc;;
     *.sh) bash $SRC/$DEMO > $DST/demo-$1.log 2>&1; return $?;;
-    *.py) python3-vt $SRC/$DEMO > $DST/demo-$1.log 2>&1; return $?;;
+    *.py) # Python / CLI demonstrations: (re)build the extension and the CLI in the worktree first, stage the package
+          (cargo build --offline -p sudachipy -p sudachi-cli > $DST/demo-build-$1.log 2>&1) || return 98
+          rm -rf target/pydemo && mkdir -p target/pydemo && cp -r python/py_src/sudachipy target/pydemo/ && cp target/debug/libsudachipy.so target/pydemo/sudachipy/sudachipy.so
+          SUDACHI_WT=$WT PYTHONPATH=$WT/target/pydemo python3-vt $SRC/$DEMO > $DST/demo-$1.log 2>&1; return $?;;
     *) return 99;;
   esac
 }
